@@ -8,7 +8,10 @@ Require Import OV.Builder.Strings OV.Builder.Naming OV.Builder.Inline OV.Builder
 Import ListNotations.
 Local Open Scope string_scope.
 
-(* --- inline = call.  For every kernel semantics, function f (body with nested If/Loop subgraphs, reference
+(* --- inline = call.  `c : icfg` is the variant of _inliner.instantiate the harness probes on every run
+   (icfg_pinned = the tree as read; icfg_fixed = with proposed_fixes/ready/C18_01 and C18_02: inputs of
+   cloned subgraphs prefixed, missing actuals mapped to None); the theorem holds for every variant.
+   For every kernel semantics, function f (body with nested If/Loop subgraphs, reference
    attributes with / without declared default), call site s (scope, _prefix, node counter, actuals of which
    some may be omitted or missing, call-site attributes, _outputs) and caller environment e in which the
    actuals have the values vs: if the executable side conditions `inline_okb f s` hold, running the nodes
@@ -30,16 +33,16 @@ Local Open Scope string_scope.
 Theorem C18_inline_eq_call :
   forall (V : Type) (sem : string -> string -> list (string * attrv) -> list (option V) -> option (list V))
          (truth : V -> option bool) (trip : V -> option nat) (of_nat : nat -> V) (of_bool : bool -> V) (limit : nat)
-         (fuel : nat) (f : func) (s : site) (e : list (vname * V)) (vs : list (option V)),
-  inline_okb f s = true -> lookup_opts e (s_actuals s) = Some vs ->
+         (c : icfg) (fuel : nat) (f : func) (s : site) (e : list (vname * V)) (vs : list (option V)),
+  inline_okb c f s = true -> lookup_opts e (s_actuals s) = Some vs ->
   match call_sem V sem truth trip of_nat of_bool limit (S fuel) f (s_attrs s) vs with
   | Some rs => exists e', run V sem truth trip of_nat of_bool limit
-                              (eval_graph V sem truth trip of_nat of_bool limit fuel) e (inline_nodes f s) = Some e'
-                          /\ lookups e' (inline_outs f s) = Some rs
-                          /\ agree_except V (defs_nodes (inline_nodes f s)) e e'
+                              (eval_graph V sem truth trip of_nat of_bool limit fuel) e (inline_nodes c f s) = Some e'
+                          /\ lookups e' (inline_outs c f s) = Some rs
+                          /\ agree_except V (defs_nodes (inline_nodes c f s)) e e'
   | None => match run V sem truth trip of_nat of_bool limit
-                    (eval_graph V sem truth trip of_nat of_bool limit fuel) e (inline_nodes f s) with
-            | Some e' => lookups e' (inline_outs f s) = None
+                    (eval_graph V sem truth trip of_nat of_bool limit fuel) e (inline_nodes c f s) with
+            | Some e' => lookups e' (inline_outs c f s) = None
             | None => True
             end
   end.
@@ -52,22 +55,22 @@ Print Assumptions C18_inline_eq_call.
 Theorem C18_inline_eq_call_node :
   forall (V : Type) (sem : string -> string -> list (string * attrv) -> list (option V) -> option (list V))
          (truth : V -> option bool) (trip : V -> option nat) (of_nat : nat -> V) (of_bool : bool -> V) (limit : nat)
-         (fuel : nat) (f : func) (s : site) (e : list (vname * V)) (outs : list vname),
+         (c : icfg) (fuel : nat) (f : func) (s : site) (e : list (vname * V)) (outs : list vname),
   (forall attrs vs, sem (f_dom f) (f_name f) attrs vs = call_sem V sem truth trip of_nat of_bool limit (S fuel) f attrs vs) ->
   is_if (f_dom f) (f_name f) = false -> is_loop (f_dom f) (f_name f) = false ->
-  inline_okb f s = true -> lookup_opts e (s_actuals s) <> None ->
+  inline_okb c f s = true -> lookup_opts e (s_actuals s) <> None ->
   NoDup outs -> List.length outs = List.length (f_outs f) ->
   match eval_node V sem truth trip of_nat of_bool limit
                   (eval_graph V sem truth trip of_nat of_bool limit fuel) e (call_node f s outs) with
   | Some ec => exists ei, run V sem truth trip of_nat of_bool limit
-                              (eval_graph V sem truth trip of_nat of_bool limit fuel) e (inline_nodes f s) = Some ei
-                          /\ lookups ei (inline_outs f s) = lookups ec outs
+                              (eval_graph V sem truth trip of_nat of_bool limit fuel) e (inline_nodes c f s) = Some ei
+                          /\ lookups ei (inline_outs c f s) = lookups ec outs
                           /\ lookups ec outs <> None
-                          /\ agree_except V (defs_nodes (inline_nodes f s)) e ei
+                          /\ agree_except V (defs_nodes (inline_nodes c f s)) e ei
                           /\ agree_except V outs e ec
   | None => match run V sem truth trip of_nat of_bool limit
-                    (eval_graph V sem truth trip of_nat of_bool limit fuel) e (inline_nodes f s) with
-            | Some ei => lookups ei (inline_outs f s) = None
+                    (eval_graph V sem truth trip of_nat of_bool limit fuel) e (inline_nodes c f s) with
+            | Some ei => lookups ei (inline_outs c f s) = None
             | None => True
             end
   end.
@@ -79,10 +82,10 @@ Print Assumptions C18_inline_eq_call_node.
 Theorem C18_eval_commutes_with_clone :
   forall (V : Type) (sem : string -> string -> list (string * attrv) -> list (option V) -> option (list V))
          (truth : V -> option bool) (trip : V -> option nat) (of_nat : nat -> V) (of_bool : bool -> V) (limit : nat)
-         om am rn fuel g vis m (e1 e2 : list (vname * V)) args,
-  inv V vis om m e1 e2 -> ok_graph rn om vis m g = true ->
+         om am rn ri fuel g vis m (e1 e2 : list (vname * V)) args,
+  inv V vis om m e1 e2 -> ok_graph ri rn om vis m g = true ->
   eval_graph V sem truth trip of_nat of_bool limit fuel e1 (omit_graph om am g) args
-  = eval_graph V sem truth trip of_nat of_bool limit fuel e2 (clone_graph rn am m g) args.
+  = eval_graph V sem truth trip of_nat of_bool limit fuel e2 (clone_graph ri rn am m g) args.
 Proof. exact eval_graph_rel. Qed.
 Print Assumptions C18_eval_commutes_with_clone.
 
@@ -91,23 +94,25 @@ Print Assumptions C18_eval_commutes_with_clone.
    nested If reading a formal and body values, two outputs, explicit output names, scope + _prefix *)
 Example C18_inline_hypotheses_satisfiable :
   func_wfb ex_fn = true
-  /\ inline_okb ex_fn ex_site = true /\ inline_okb ex_fn ex_site_default = true
+  /\ inline_okb icfg_pinned ex_fn ex_site = true /\ inline_okb icfg_pinned ex_fn ex_site_default = true
   /\ lookup_opts ex_env (s_actuals ex_site) = Some [Some 4%Z; Some (-4)%Z]
   /\ toy_call 3 ex_fn (s_attrs ex_site) [Some 4%Z; Some (-4)%Z] = Some [5%Z; 10%Z]
-  /\ toy_inline 2 ex_fn ex_site ex_env = Some [5%Z; 10%Z]
+  /\ toy_inline icfg_pinned 2 ex_fn ex_site ex_env = Some [5%Z; 10%Z]
   /\ toy_call 3 ex_fn [] [Some 4%Z; Some (-4)%Z] = Some [1%Z; 2%Z]
-  /\ toy_inline 2 ex_fn ex_site_default ex_env = Some [1%Z; 2%Z]
-  /\ inline_outs ex_fn ex_site = ["v_enc.out"; "v_enc.tmp"]
-  /\ inline_outs ex_fn ex_site_default = ["v_exf_node_2/u"; "v_exf_node_2/v_Add_0"]
-  /\ inline_fresh ex_fn ex_site (map fst ex_env) = true
-  /\ inline_fresh ex_fn ex_site_default (map fst ex_env) = false.
+  /\ toy_inline icfg_pinned 2 ex_fn ex_site_default ex_env = Some [1%Z; 2%Z]
+  /\ inline_outs icfg_pinned ex_fn ex_site = ["v_enc.out"; "v_enc.tmp"]
+  /\ inline_outs icfg_pinned ex_fn ex_site_default = ["v_exf_node_2/u"; "v_exf_node_2/v_Add_0"]
+  /\ inline_fresh icfg_pinned ex_fn ex_site (map fst ex_env) = true
+  /\ inline_fresh icfg_pinned ex_fn ex_site_default (map fst ex_env) = false
+  /\ inline_okb icfg_fixed ex_fn ex_site = true /\ inline_okb icfg_fixed ex_fn ex_site_default = true
+  /\ toy_inline icfg_fixed 2 ex_fn ex_site ex_env = Some [5%Z; 10%Z].
 Proof. exact ex_inline_hypotheses. Qed.
 
 (* --- without the no-capture side conditions the statement is FALSE of the faithful model (findings, each
    replayed on the real code by harness/c18_inline.py) *)
 (* well-formed functions, any site with at most as many actuals as formals *)
 Theorem C18_inline_eq_call_full_refuted :
-  ~ inline_eq_call_full Z toy_sem toy_truth toy_trip toy_of_nat toy_of_bool 10.
+  ~ inline_eq_call_full Z toy_sem toy_truth toy_trip toy_of_nat toy_of_bool 10 icfg_pinned.
 Proof. exact inline_eq_call_full_refuted. Qed.
 Print Assumptions C18_inline_eq_call_full_refuted.
 
@@ -115,10 +120,13 @@ Print Assumptions C18_inline_eq_call_full_refuted.
    of them (acc_0) is captured inside the cloned body: the call gives 8, the inlined nodes 16 *)
 Theorem C18_inline_subgraph_input_capture_refuted :
   func_wfb w_loop_fn = true
-  /\ inline_okb w_loop_fn w_capture_site = false /\ inline_okb w_loop_fn w_plain_site = true
+  /\ inline_okb icfg_pinned w_loop_fn w_capture_site = false /\ inline_okb icfg_pinned w_loop_fn w_plain_site = true
   /\ toy_call 3 w_loop_fn [] [Some 2%Z] = Some [8%Z]
-  /\ toy_inline 2 w_loop_fn w_plain_site [("x", 2%Z)] = Some [8%Z]
-  /\ toy_inline 2 w_loop_fn w_capture_site [("acc_0", 2%Z)] = Some [16%Z].
+  /\ toy_inline icfg_pinned 2 w_loop_fn w_plain_site [("x", 2%Z)] = Some [8%Z]
+  /\ toy_inline icfg_pinned 2 w_loop_fn w_capture_site [("acc_0", 2%Z)] = Some [16%Z]
+  (* with the inputs of cloned subgraphs prefixed (proposed_fixes/ready/C18_01) the same site is fine *)
+  /\ inline_okb icfg_fixed w_loop_fn w_capture_site = true
+  /\ toy_inline icfg_fixed 2 w_loop_fn w_capture_site [("acc_0", 2%Z)] = Some [8%Z].
 Proof. exact inline_subgraph_input_capture_refuted. Qed.
 Print Assumptions C18_inline_subgraph_input_capture_refuted.
 
@@ -126,11 +134,14 @@ Print Assumptions C18_inline_subgraph_input_capture_refuted.
    through: dangling, or captured by a caller value of that name; with an explicit None it is omitted *)
 Theorem C18_inline_fewer_actuals_refuted :
   func_wfb w_opt_fn = true
-  /\ inline_okb w_opt_fn w_fewer_site = false /\ inline_okb w_opt_fn w_none_site = true
+  /\ inline_okb icfg_pinned w_opt_fn w_fewer_site = false /\ inline_okb icfg_pinned w_opt_fn w_none_site = true
   /\ toy_call 2 w_opt_fn [] [Some 1%Z] = Some [1%Z]
-  /\ toy_inline 1 w_opt_fn w_none_site [("x", 1%Z)] = Some [1%Z]
-  /\ toy_inline 1 w_opt_fn w_fewer_site [("x", 1%Z)] = None
-  /\ toy_inline 1 w_opt_fn w_fewer_site [("lo", 5%Z); ("x", 1%Z)] = Some [6%Z].
+  /\ toy_inline icfg_pinned 1 w_opt_fn w_none_site [("x", 1%Z)] = Some [1%Z]
+  /\ toy_inline icfg_pinned 1 w_opt_fn w_fewer_site [("x", 1%Z)] = None
+  /\ toy_inline icfg_pinned 1 w_opt_fn w_fewer_site [("lo", 5%Z); ("x", 1%Z)] = Some [6%Z]
+  (* with the missing actuals mapped to None (proposed_fixes/ready/C18_02) the same site is fine *)
+  /\ inline_okb icfg_fixed w_opt_fn w_fewer_site = true
+  /\ toy_inline icfg_fixed 1 w_opt_fn w_fewer_site [("lo", 5%Z); ("x", 1%Z)] = Some [1%Z].
 Proof. exact inline_fewer_actuals_refuted. Qed.
 Print Assumptions C18_inline_fewer_actuals_refuted.
 
